@@ -9,13 +9,13 @@ ID = "C12"
 AREA = "c12"
 LEAN_PROPS = "Litep2pVerif.Props.C12"
 THEOREMS = ["per_mode_prefix", "at_most_once", "no_gap_within_open_period", "no_loss_while_open", "sync_never_blocks",
-            "oversize_not_delivered"]
+            "oversize_not_delivered", "sink_send_after_close_fails", "sink_clone_live"]
 CONSTS = ["BACKPRESSURE_BOUNDARY"]
 CONST_TABLE = [
     ("BACKPRESSURE_BOUNDARY", "src/substream/mod.rs", r"const BACKPRESSURE_BOUNDARY: usize = ([^;]+);", 65536),
 ]
 MANIFEST = {
-    "text": "Lean 4 theorems about an executable model of the notification data path (bounded sync/async queues, the "
+    "text": "(coverage round: + sink clones obtained with notification_sink() - sink_send_after_close_fails: after close_connection has reported closed, a send through a clone of that stream's sink answers NoConnection/PeerDoesntExist and changes nothing, for every later history incl. a new stream; sink_clone_live; the handle's own async send polled once) Lean 4 theorems about an executable model of the notification data path (bounded sync/async queues, the "
             "Connection task's poll loop: take the parked notification or either non-empty queue, poll_ready with the "
             "substream's back-pressure boundary, park at most one notification, start_send, flush; the start() loop that "
             "re-enters poll_next after every inbound notification; the slot on the shared inbound channel reserved before "
@@ -89,8 +89,29 @@ def gen_case(rng, tier):
             return mx
         return mx + rng.choice([1, 5])          # beyond the maximum
 
+    nsinks = 0
     for _ in range(n):
         r = rng.random()
+        if rng.random() < 0.12:
+            # coverage round: sink clones (`notification_sink`) used directly, also after close / reopen, and the
+            # handle's own async send (polled once)
+            k = rng.random()
+            if k < 0.3 or nsinks == 0:
+                ops.append("sink")
+                nsinks += 1         # (if the handle has no sink the number is not taken; later uses answer `ignored`)
+            elif k < 0.6:
+                for _ in range(rng.choice([1, 1, sync + 2])):
+                    seq["s"] += 1
+                    ops.append(f"csync {rng.randrange(nsinks)} {seq['s']} {size()}")
+            elif k < 0.8:
+                for _ in range(rng.choice([1, 1, asyn + 2])):
+                    seq["a"] += 1
+                    ops.append(f"casync {rng.randrange(nsinks)} {seq['a']} {size()}")
+            else:
+                for _ in range(rng.choice([1, 1, asyn + 2])):
+                    seq["a"] += 1
+                    ops.append(f"hasync {seq['a']} {size()}")
+            continue
         if r < 0.22:
             for _ in range(rng.choice([1, 1, 2, sync + 2])):
                 seq["s"] += 1
@@ -247,6 +268,8 @@ def oracle(case, out):
     got = {"s": [], "a": []}          # read by the remote in this open period
     rsent, rgot = [], []              # remote -> user
     old_sent = []
+    sinks = {}                        # sink clone -> number of `closed` events the user had seen when it was taken
+    closed_seen = 0
     view = False                      # the handle has seen `opened` (and no `closed` since): it holds a sink
     stream = False                    # a stream was opened by `open` ...
     broken = True                     # ... and since then it was closed / asked to close / its task ended
@@ -320,6 +343,35 @@ def oracle(case, out):
                 sizes[("s", int(t[1]))] = int(t[2])
                 if max(int(t[2]), 3) > mx:
                     broken = True               # the task closes the stream when it meets this notification
+        elif t[0] == "sink":
+            m = re.search(r"sink=(\d+)", o)
+            if o.startswith("ok") and m:
+                sinks[int(m.group(1))] = closed_seen
+                if not view:
+                    v("sink-for-closed-stream", "notification_sink() returned a sink although the handle has not seen the "
+                      "stream opened", i)
+            elif view:
+                v("no-sink-for-open-stream", "notification_sink() returned None although the handle holds a sink", i)
+        elif t[0] in ("csync", "casync") and len(t) == 4:
+            m, w = ("s" if t[0] == "csync" else "a"), o.split()[0]
+            if w not in (("ok", "clogged", "noconn") if m == "s" else ("ok", "waiting", "noconn")):
+                v("sink-result", f"{t[0]} answered {o}", i)
+            sizes[(m, int(t[2]))] = int(t[3])
+            if w in ("ok", "waiting") and t[1].isdigit() and closed_seen > sinks.get(int(t[1]), 0):
+                v("sink-send-after-close", f"a sink taken before the user saw NotificationStreamClosed accepted {t[0]} "
+                  f"{t[2]} afterwards", i)
+            if w == "ok":
+                acc[m].append(int(t[2]))
+            if w in ("ok", "waiting") and max(int(t[3]), 3) > mx:
+                broken = True
+        elif t[0] == "hasync" and len(t) == 3:
+            if o not in ("ok", "blocked", "noconn", "nopeer"):
+                v("async-result", f"send_async (polled once) answered {o}", i)
+            sizes[("a", int(t[1]))] = int(t[2])
+            if o == "ok":
+                acc["a"].append(int(t[1]))
+                if max(int(t[2]), 3) > mx:
+                    broken = True
         elif t[0] == "async" and len(t) == 3:
             sizes[("a", int(t[1]))] = int(t[2])
             if o == "ok":
@@ -355,6 +407,7 @@ def oracle(case, out):
                     view = True
                 elif tok == "closed":
                     view = False
+                    closed_seen += 1
                 elif tok.startswith("r") and tok[1:].isdigit():
                     s = int(tok[1:])
                     if s in old_sent:
